@@ -1,5 +1,37 @@
 """C07 — culling, write masks and statistics behave as configured."""
+import collections
+import os
+
 import c06
+import vf
+
+
+def stats_extra(chk, tier):
+    """Growth beyond the statement: the Stats accumulator, its per-frame / per-second views and
+    its renderings (Stats.tla).  Rejections are notes, never alarms."""
+    binpath = vf.build_harness()
+    d = vf.outdir("c07")
+    cfg = vf.write_cfg(os.path.join(d, "MC_Stats.cfg"), None, invariants=["OrderFree", "Done"])
+    r = vf.tlc("MC_Stats", cfg, workers=4, gc="parallel", heap="4g")
+    chk.add_mc("MC_Stats (extra coverage)", r, {})
+    cases = os.path.join(d, "stats.ndjson")
+    vf.run_harness(binpath, ["stats", "gen", "--seed", vf.seed(), "--tier", tier], stdout_path=cases)
+    vf.run_harness(binpath, ["stats", "exec", cases], stdout_path=cases + ".trace")
+    nrec, nev, bad = vf.validate_trace("TV_Stats", cases + ".trace", jvms=4)
+    byop = collections.Counter(b["info"][1] for b in bad)
+    vf.log("[tv] stats: %d histories / %d events judged by TV_Stats: %d rejected %s" % (nrec, nev, len(bad), dict(byop)))
+    core = [b for b in bad if b["info"][1] in ("add", "per_frame", "per_sec", "pct")]
+    for b in core[:5]:
+        chk.note("extra-coverage: stats history %s rejected at %s: %s" % (b["key"], b["info"][1], str(b["info"][2])[:300]))
+    if byop.get("time"):
+        chk.note("extra-coverage: %d duration renderings rejected, e.g. %s (human_time rounds the minutes to nearest and "
+                 "can print '60s'; the suite's own test pins 1234 s -> '21min 34s')" % (
+                     byop["time"], next(str(b["info"][2])[:160] for b in bad if b["info"][1] == "time")))
+    if byop.get("num"):
+        chk.note("extra-coverage: %d count renderings rejected, e.g. %s (human_num prints 99 950..99 999 and "
+                 "99.95M.. six characters wide)" % (
+                     byop["num"], next(str(b["info"][2])[:160] for b in bad if b["info"][1] == "num")))
+    chk.cov["extra_coverage"] = {"stats_histories": nrec, "stats_events": nev, "rejected_by_op": dict(byop)}
 
 
 def run(tier):
@@ -13,4 +45,5 @@ def run(tier):
                        "the count of written fragments is not judged for sorted calls over overlapping depth ranges "
                        "(the specification does not fix the sort key) nor when fragments tie in depth",
                        "time and frames statistics are not part of the statement"]
+    stats_extra(chk, tier)
     return chk.finish()
